@@ -132,6 +132,9 @@ def run(case):
             return o.result()
         ca, ia = _split(A)
         cb, ib = _split(B)
+        for rows_, what in ((ca, 'image'), (cb, 'negated image')):
+            catalog_inv.check_components(rows_, lambda c, w: o.violate('catalogue_invariant_' + c, dict(w, where=what)),
+                                         lambda n, k=1: o.count('catalogue_invariant_' + n, k), ctx)
         # ---- polarity class of every island, from the image itself
         sub = (data.astype(np.float32).astype(np.float64) - (bkg.astype(np.float64) if case['aux'] == 'files' else 0.0))
         snr = floodfill.snr_image(sub, 0.0, 1.0)
